@@ -170,6 +170,20 @@ CLAIMS = {
     },
 }
 
+# rules added after wave 8 (DESIGN.md 6.10)
+_ADDED = {
+    'C04': ' Instance attributes: the self-attribute filter keeps a `<receiver>.x = ...` on the receiver\'s goto result alone (closures nested in methods included; path summary of _is_in_right_scope) and drops candidates only for the six listed reasons (C04.j).',
+    'C05': ' The keyword of a call argument is linked to the parameter of every signature of every callable the callee may be: the walk over values x signatures x parameter names has no early exit (C05.g).',
+    'C06': ' The parenthesisation of inline is decided as a table over four facts of the use site and the value\'s tuple-ness (C06.a): nothing else can switch the parentheses off.',
+    'C07': ' White space of the original is carried over as text: no indentation or padding is synthesised from a count, the indentation of a replacement statement is the last line of the first leaf\'s prefix (C07.k).',
+    'C09': ' Freshness is judged by the full-resolution modification time: every get_last_modified returns os.path.getmtime/None, parso\'s implementation comes first in the MRO of the file-backed IO classes, no truncation anywhere (C09.e).',
+    'C11': ' The collected keyword-only parameters of forwarded callables are emitted through one loop that skips and registers names in used_names (no parameter named twice, C11.f).',
+    'C15': ' Memoising constructors stay memoising where per-object caches bound the work (GenericClass wrappers of base classes, TypeVar, TreeArguments: C15.g).',
+    'C18': ' The dotted name of the analysed file is computed against the search path without the buffer\'s own ancestor directories (C18.g).',
+}
+for _k, _v in _ADDED.items():
+    CLAIMS[_k]['level'] += _v
+
 WIP = 'check not built yet in this session (work in progress; see DESIGN.md section 4 for the planned rules)'
 NOT_APPLICABLE = {
     'C02': 'relates an abstract interpreter\'s results to CPython\'s concrete semantics for every program; no clause is decided by the '
